@@ -10,6 +10,8 @@
       [s |-> "unpack", i]     a, b, .. = c ; the i-th                          sequences
       [s |-> "catr", i]       (c + (extra,))[i]                               sequences  (sequence_extend_right)
       [s |-> "catl", i]       ((extra,) + c)[i + 1]                           sequences  (sequence_extend_left)
+      [s |-> "catr0", i]      (c + ())[i]  /  [s |-> "catl0", i]  (() + c)[i]  concatenation with an EMPTY sequence
+      [s |-> "resplit", a, i] (c[:a] + c[a:])[i]   for every split point a = 0..len(c) (both parts traced; a = 0 or len(c): one of them empty)
       [s |-> "key", i]        c[key_i]                                        dicts
       [s |-> "get", i]        c.get(key_i)                                    dicts
       [s |-> "items", i]      list(c.items())[i][1]  in key order             dicts
@@ -50,7 +52,8 @@ StepsAt(t) ==
      LET n == Len(t.items) IN
      {[s |-> "idx", i |-> i] : i \in (-n)..(n - 1)}
      \cup {st \in {[s |-> "slice", a |-> a, b |-> b, i |-> i] : a \in 0..n, b \in 0..n, i \in 0..(n - 1)} : st.a + st.i < st.b}
-     \cup {[s |-> k, i |-> i] : k \in {"iter", "unpack", "catr", "catl"}, i \in 0..(n - 1)}
+     \cup {[s |-> k, i |-> i] : k \in {"iter", "unpack", "catr", "catl", "catr0", "catl0"}, i \in 0..(n - 1)}
+     \cup {[s |-> "resplit", a |-> a, i |-> i] : a \in 0..n, i \in 0..(n - 1)}
   ELSE LET n == Len(t.items) IN {[s |-> k, i |-> i] : k \in {"key", "get", "items", "iter"}, i \in 0..(n - 1)}
 Child(st, t) == CASE st.s = "idx" -> (IF st.i < 0 THEN Len(t.items) + st.i + 1 ELSE st.i + 1)
                   [] st.s = "slice" -> st.a + st.i + 1
